@@ -15,10 +15,22 @@ const ODD_IDS: &[&str] = &["", "é", "a b", "zz.long.name.with.many.components.a
 const LOAD_TYPES: &[&str] = &["S0", "S1", "N0", "M20", "M31", "M00", "M11", "D2", "R2", "D3"];
 const INS_TYPES: &[&str] = &["I", "S0", "N0", "M20", "S1"];
 
-pub fn gen_script(rng: &mut Prng, rank: usize, allow_fail: bool) -> String {
+/// types a script may hand to `get_or_insert` (`@T:id:n`)
+const SCRIPT_INS_TYPES: &[&str] = &["S0", "S1", "N0", "S2", "M20", "I", "AS"];
+
+/// `goi`: a share of the tokens are `@T:id:n` (`get_or_insert` from inside the loader, on any id — one third on the
+/// script's own id: a loader filling a slot of its own id, for `T` = its own type the very slot being loaded).
+/// `get_or_insert` never runs a loader, so it cannot create a load cycle. With `goi = false` the random stream is
+/// the one the engines had before the token existed.
+pub fn gen_script(rng: &mut Prng, rank: usize, allow_fail: bool, goi: bool) -> String {
     let n = rng.range(0, 4);
     let mut toks = vec![rng.below(50).to_string()];
     for _ in 0..n {
+        if goi && rng.chance(1, 10) {
+            let id = if rank < IDS.len() && rng.chance(1, 3) { IDS[rank] } else { *rng.pick(IDS) };
+            toks.push(format!("@{}:{id}:{}", *rng.pick(SCRIPT_INS_TYPES), rng.below(1000)));
+            continue;
+        }
         let higher: Vec<&str> = IDS.iter().skip(rank + 1).copied().collect();
         let any_id = *rng.pick(IDS);
         let t = *rng.pick(&["S0", "S1", "N0", "M20", "M31", "S2"]);
@@ -42,9 +54,29 @@ pub fn gen_script(rng: &mut Prng, rank: usize, allow_fail: bool) -> String {
     toks.join(" ")
 }
 
-pub fn gen_source(rng: &mut Prng, l: &mut Vec<String>, allow_fail: bool) {
+/// Returns the ids whose scripts form a re-entrant pair (only with `goi`): a parent `p` that fills ITS OWN slot with
+/// `get_or_insert` and then loads a child `c` that loads the parent back (`p.s = "k @T:p:n +T:c"`, `c.s = "k +T:p"`).
+/// The back-load is a hit on the provisional entry, so the recursion stops — as long as `p.s` starts with that
+/// `get_or_insert`: callers must not replace the scripts of the returned ids by scripts that load.
+pub fn gen_source(rng: &mut Prng, l: &mut Vec<String>, allow_fail: bool, goi: bool) -> Vec<&'static str> {
+    let pinned = gen_source_inner(rng, l, allow_fail, goi);
+    if !goi || !rng.chance(1, 5) { return pinned; }
+    let pi = rng.below(IDS.len() - 1);
+    let ci = rng.range(pi + 1, IDS.len() - 1);
+    let (p, c) = (IDS[pi], IDS[ci]);
+    let t = *rng.pick(&["S0", "S1", "N0", "S2", "S0"]);
+    let mut ps = format!("{} @{t}:{p}:{} {}{t}:{c}", rng.below(50), rng.range(100, 999), if rng.chance(1, 4) { "=" } else { "+" });
+    if rng.chance(1, 3) { ps.push_str(&format!(" ?{t}:{p}")); }
+    let mut cs = format!("{} +{t}:{p}", rng.below(50));
+    if rng.chance(1, 3) { cs.push_str(&format!(" @{t}:{c}:{}", rng.range(100, 999))); }
+    l.push(format!("src.put {} {} {} 0", hexs(p), hexs("s"), hexs(&ps)));
+    l.push(format!("src.put {} {} {} 0", hexs(c), hexs("s"), hexs(&cs)));
+    vec![p, c]
+}
+
+fn gen_source_inner(rng: &mut Prng, l: &mut Vec<String>, allow_fail: bool, goi: bool) -> Vec<&'static str> {
     for (rank, id) in IDS.iter().enumerate() {
-        if rng.chance(5, 6) { l.push(format!("src.put {} {} {} {}", hexs(id), hexs("s"), hexs(&gen_script(rng, rank, allow_fail)), rng.below(3))); }
+        if rng.chance(5, 6) { l.push(format!("src.put {} {} {} {}", hexs(id), hexs("s"), hexs(&gen_script(rng, rank, allow_fail, goi)), rng.below(3))); }
         for ext in ["a", "b"] {
             match rng.below(8) {
                 0..=3 => l.push(format!("src.put {} {} {} {}", hexs(id), hexs(ext), hexs(&format!("ok:{}", rng.below(100))), rng.below(3))),
@@ -54,6 +86,7 @@ pub fn gen_source(rng: &mut Prng, l: &mut Vec<String>, allow_fail: bool) {
             }
         }
     }
+    vec![]
 }
 
 impl Engine for CacheEngine {
@@ -83,7 +116,7 @@ impl Engine for CacheEngine {
             return l;
         }
         let malformed = idx % 5 == 4;
-        gen_source(rng, &mut l, true);
+        let pinned = gen_source(rng, &mut l, true, true);
         let n = rng.range(5, if tier == Tier::Thorough { 60 } else { 30 });
         for _ in 0..n {
             let id = if malformed && rng.chance(1, 2) { *rng.pick(ODD_IDS) } else if rng.chance(1, 12) { "nonexistent" } else { *rng.pick(IDS) };
@@ -101,7 +134,9 @@ impl Engine for CacheEngine {
                 17 => format!("take {anyt} {h}"),
                 18 => if rng.chance(1, 3) { "clear".into() } else { format!("load {} {}", if rng.chance(1, 2) { "D2" } else { "R3" }, hexs(if rng.chance(1, 2) { "" } else { "d" })) },
                 19 => format!("src.put {h} {} {} {}", hexs("a"), hexs(&format!("ok:{}", rng.below(100))), rng.below(3)),
-                20 => format!("src.put {h} {} {} 0", hexs("s"), hexs(&gen_script(rng, IDS.iter().position(|x| *x == id).unwrap_or(IDS.len()), true))),
+                // (the scripts of a re-entrant pair stay: the parent's own-slot get_or_insert is what stops the recursion)
+                20 if pinned.contains(&id) => format!("load {} {h}", *rng.pick(&["S0", "S1", "N0", "S2"])),
+                20 => format!("src.put {h} {} {} 0", hexs("s"), hexs(&gen_script(rng, IDS.iter().position(|x| *x == id).unwrap_or(IDS.len()), true, true))),
                 _ => "dump".into(),
             });
         }
@@ -118,6 +153,7 @@ impl Engine for CacheEngine {
         rec.stat(format!("frontend={}", first[1]));
         rec.stat(format!("mode={}", first[2]));
         let mut snap = wx.snapshot();
+        let mut tracker = SeenTracker::begin();
         for line in it {
             let w: Vec<&str> = line.split_whitespace().collect();
             let out = wx.op(line);
@@ -127,6 +163,13 @@ impl Engine for CacheEngine {
             rec.stat(format!("op={opname}/{}", if cls.starts_with('h') { "handle" } else { cls }));
             if out != "bad-op" && !opname.starts_with("src.") && opname != "dump" { rec.nontrivial = true; }
             let after = wx.snapshot();
+            // ---- oracle of C01 (sequential part): one stable handle per key, also for the handles loaders were given
+            let goi_filled = SeenTracker::goi_targets();
+            // keys a loader filled itself (get_or_insert) or that a nested load cached (a child loading its parent back while the
+            // parent is being loaded — possible without unbounded recursion once the parent has filled its own slot)
+            let nested = SeenTracker::loader_obtained();
+            for f in tracker.after_op(&wx, line, &after) { rec.oracle_fail(f); }
+            if !goi_filled.is_empty() { rec.stat("loader-get-or-insert"); }
             // ---- oracle: the statement of C02 on the snapshots
             let key = if w.len() >= 3 { Some((w[1].to_string(), unhexs(w[2]))) } else { None };
             let added: Vec<_> = after.keys().filter(|k| !snap.contains_key(*k)).cloned().collect();
@@ -139,8 +182,9 @@ impl Engine for CacheEngine {
                     let own = key.clone().unwrap();
                     let ok = out.starts_with("ok ") || opname == "goi";
                     if opname == "load" && ok && !after.contains_key(&own) { rec.oracle_fail(format!("load-not-cached `{line}` succeeded but the key is absent")); }
-                    if opname == "load" && !ok && added.contains(&own) { rec.oracle_fail(format!("failed-load-cached `{line}` failed but cached its own key")); }
-                    if opname == "owned" && added.contains(&own) { rec.oracle_fail(format!("load-owned-cached `{line}` cached its own key")); }
+                    // (a key a loader filled itself with get_or_insert, or cached by a nested load, is not an addition of this operation)
+                    if opname == "load" && !ok && added.contains(&own) && !nested.contains(&own) { rec.oracle_fail(format!("failed-load-cached `{line}` failed but cached its own key")); }
+                    if opname == "owned" && added.contains(&own) && !nested.contains(&own) { rec.oracle_fail(format!("load-owned-cached `{line}` cached its own key")); }
                     if opname == "goi" {
                         if !snap.contains_key(&own) && !(added.len() == 1 && added[0] == own) && out != "bad-op" { rec.oracle_fail(format!("goi-wrong-add `{line}` added {added:?}")); }
                         if snap.contains_key(&own) && !added.is_empty() { rec.oracle_fail(format!("goi-wrong-add `{line}` on a present key added {added:?}")); }
